@@ -59,10 +59,11 @@ def orderCompatible (a b : DB) : Bool :=
     | none => true
 
 /-- regions that do not depend on the direction -/
-def common (g : Globals) (a b : DB) : Option String :=
+def commonBut (skipIdxRedefined : Bool) (g : Globals) (a b : DB) : Option String :=
   if !orderCompatible a b then some "excluded:not-order-compatible"
   else if pkChanged a b then some "pk-changed"
-  else if idxRedefinedOldColsDropped a b || idxRedefinedOldColsDropped b a then some "index-redefined-old-columns-dropped"
+  else if !skipIdxRedefined && (idxRedefinedOldColsDropped a b || idxRedefinedOldColsDropped b a) then
+    some "index-redefined-old-columns-dropped"
   else if fkRedefined a b then some "foreign-key-redefined"
   else match g.dialect with
     | .mysql => none
@@ -75,6 +76,8 @@ def common (g : Globals) (a b : DB) : Option String :=
       else if hasForeignKeys a || hasForeignKeys b then some "sqlite-foreign-keys"
       else if columnRedefined a b then some "sqlite-column-redefined"
       else none
+
+def common (g : Globals) (a b : DB) : Option String := commonBut false g a b
 
 def c01 (g : Globals) (dbOld dbNew : DB) (_old _new : List Stmt) : Option String :=
   if g.dialect == .sqlite && needsColumnRemoval dbOld dbNew then some "excluded:sqlite-column-removal"
@@ -168,21 +171,24 @@ def c14 (g : Globals) (db : DB) (ss : List Stmt) : Option String :=
 def c15 (_g : Globals) (_db : DB) (_ss : List Stmt) : Option String := none
 
 /-- C04: the first region met by a consecutive pair of revisions (starting from the empty history) -/
-def c04Pairs (g : Globals) : DB → List (List Stmt) → Option String
+def c04Pairs (conv : Bool) (g : Globals) : DB → List (List Stmt) → Option String
   | _, [] => none
   | prev, r :: rest =>
     match execAll true [] r with
     | none => some "excluded:ill-formed-input"
     | some db =>
-      match common g prev db with
+      match commonBut conv g prev db with
       | some x => some x
-      | none => c04Pairs g db rest
+      | none => c04Pairs conv g db rest
 
-def c04 (g : Globals) (revs : List (List Stmt)) : Option String :=
+/-- `conv`: the scope of the convergence clause (sqlize re-reads its own migrations).  The recorded defect
+    `index-redefined-old-columns-dropped` is an ill-formed statement on a real engine; sqlize's own reader tolerates it
+    and the history still converges, so those revisions stay in scope for that clause. -/
+def c04 (g : Globals) (revs : List (List Stmt)) (conv : Bool := false) : Option String :=
   match g.dialect with
   | .postgres => some "postgres-migrations-not-rereadable"
   | .sqlite => some "sqlite-one-statement-per-call"
-  | .mysql => c04Pairs g [] revs
+  | .mysql => c04Pairs conv g [] revs
 
 -- ---------------------------------------------------------------------------------------------------------------
 -- struct declarations (C06, C10)
